@@ -11,6 +11,8 @@ package gemmill
 import (
 	"github.com/spf13/viper"
 
+	"github.com/dappledger/AnnChain/gemmill/archive"
+	"github.com/dappledger/AnnChain/gemmill/blockchain"
 	"github.com/dappledger/AnnChain/gemmill/go-crypto"
 	dbm "github.com/dappledger/AnnChain/gemmill/modules/go-db"
 	"github.com/dappledger/AnnChain/gemmill/p2p"
@@ -53,3 +55,25 @@ func VerifRefuseListFilter(refuseList *refuse_list.RefuseList) func(crypto.PubKe
 func VerifAddToRefuselist(refuseList *refuse_list.RefuseList) func([]byte) error {
 	return addToRefuselist(refuseList)
 }
+
+// --- C13 (fast sync): the real assembleStateMachine over dependencies the harness supplies.
+
+// VerifAssemble fills exactly the fields assembleStateMachine reads and calls it.
+func VerifAssemble(conf *viper.Viper, st *state.State, pv *types.PrivValidator, sw *p2p.Switch, evsw *types.EventSwitch,
+	dbs map[string]dbm.DB, rl *refuse_list.RefuseList, arch *archive.Archive) *Angine {
+	ang := &Angine{
+		tune:          &Tunes{Conf: conf},
+		conf:          conf,
+		dbs:           dbs,
+		privValidator: pv,
+		p2pSwitch:     sw,
+		eventSwitch:   evsw,
+		refuseList:    rl,
+		dataArchive:   arch,
+	}
+	ang.assembleStateMachine(st)
+	return ang
+}
+
+// VerifBlockStore returns the block store created by assembleStateMachine.
+func (ang *Angine) VerifBlockStore() *blockchain.BlockStore { return ang.blockstore }
